@@ -434,13 +434,23 @@ where
             cast_options,
         )
     } else {
-        // Scale increase exceeds supported precision; return overflow error
-        Err(ArrowError::CastError(format!(
-            "Cannot cast to {}({}, {}). Value overflows for output scale",
-            O::PREFIX,
-            output_precision,
-            output_scale
-        )))
+        // Scale increase exceeds supported precision: every value but zero overflows
+        let overflow = || {
+            ArrowError::CastError(format!(
+                "Cannot cast to {}({}, {}). Value overflows for output scale",
+                O::PREFIX,
+                output_precision,
+                output_scale
+            ))
+        };
+        if cast_options.safe {
+            Ok(array.unary_opt(|x| x.is_zero().then_some(O::Native::ZERO)))
+        } else {
+            array.try_unary(|x| match x.is_zero() {
+                true => Ok(O::Native::ZERO),
+                false => Err(overflow()),
+            })
+        }
     }
 }
 
